@@ -168,6 +168,8 @@ def replay(ctx, path):
     d = json.load(open(path))
     drv = build(ctx)
     e = d["event"]
+    if e.get("e") == "Fault":
+        return core.replay_fault(ctx, d, drv, "CStringTrace", path)
     t = ctx.drive(drv, ["R", "Str %s %s %d %d %d %d" % (e["fn"], fmt(e["mem"]), e["a"], e["b"], e["n"], e["pad"])], "replay")
     ctx.report(ctx.judge("CStringTrace", [t]))
     return ctx.finish(rule="replay of " + path)
